@@ -1,1 +1,19 @@
-fn main() { println!("vh skeleton {}", c2pa::VERSION); let _ = c2pa_c::c2pa_version; }
+//! vh -- conformance harness binding the TLA+ specification in /verif/spec to contentauth/c2pa-rs.
+mod common;
+mod c04;
+
+fn main() {
+    let args: Vec<String> = std::env::args().skip(1).collect();
+    let cmd = args.first().map(|s| s.as_str()).unwrap_or("");
+    let rest = &args[args.len().min(1)..];
+    match cmd {
+        "version" => println!("vh {}", c2pa::VERSION),
+        "c04-replay" => c04::replay(rest),
+        "c04-observe" => c04::observe(rest),
+        "c04-legacy" => c04::legacy(rest),
+        _ => {
+            eprintln!("unknown command {cmd}");
+            std::process::exit(2);
+        }
+    }
+}
